@@ -113,6 +113,18 @@ CHECKS = {
         "re-traversal of fan-in DAGs below the depth limit. The pager contract (whole pages of the validated page size or an error) is a hypothesis of the theorems, met by the file pager and the harness pager.",
    technique="Coq proof (panic-freedom and bounded fuel for all byte strings, by induction over the depth budget) + structure-aware mutation differential",
    design="DESIGN.md section 6, C05"),
+ "C08": dict(
+   text="Coq: the handle's state machine (Model/DbState.v: dirty flag set by RLock, resolveDirty with the change-counter / schema-cookie comparisons, the page cache with its "
+        "drop-everything-at-100-pages rule, the object cache, openPage, master) is proved coherent over EVERY history (commit | read transaction)* from open: each transaction's page "
+        "requests - any sequence, hence any operation - are answered exactly as an uncached reader of the then-current committed image would answer them (C08_coherent, C08_txn, "
+        "C08_from_open), repeated reads are identical (C08_idempotent), the cached sqlite_master is the current one (C08_master); an unacceptable header or a hot journal fails every "
+        "call (C08_bad_header, C08_hot_journal). Hypothesis 'protocol': committed images with equal change counters are equal, with equal cookies have equal sqlite_master. "
+        "Every run: random histories on one long-lived handle against real SQLite writers (DML, DDL, growth, page reuse, root reuse, VACUUM incl. page-size change, before the first "
+        "read too), each read twice, databases below and above the cache size, in-memory pager (with the extracted state machine serving the model's pages) and real file pager.",
+   note="The 2^32 wrap of the counters is outside the hypothesis (fewer than 2^32 commits between two reads). Which pages a traversal requests is determined by the answers, so per-request "
+        "transparency gives per-operation equality; operations themselves are the pure functions of C01-C04. The file not changing during a transaction is C06.",
+   technique="Coq proof (cache-coherence invariant by induction over histories) + history differential vs real SQLite",
+   design="DESIGN.md section 6, C08"),
 }
 
 NOT_YET = {}
